@@ -63,3 +63,22 @@ package polling
 //@     requires r.Method == "GET" [C17.polling.only.get.polls]
 //@   callsite (*ServerTransport).handleDataRequest
 //@     requires r.Method == "POST" [C17.polling.only.post.delivers]
+
+// C07 (client, long-polling): a poll request is sent exactly as built and is never cancelled by the transport: when the
+// transport is discarded at an upgrade, the request in flight is left to complete, and what the server answers on it
+// (the last packets it sent over polling) is decoded and handed back.
+//@ func (*ClientTransport).poll
+//@   opt safety off
+//@   requires t != nil && t.httpClient != nil
+//@   ghost req *http.Request = nil
+//@   ghost asked int = 0
+//@   callsite (*ClientTransport).newRequest skip
+//@     updateafter req = result0
+//@   callsite Do skip
+//@     requires recv == t.httpClient && arg0 == req && asked == 0 [C07.poll.request.sent.as.built.never.cancelled]
+//@     update asked = asked + 1
+//@   callsite WithContext
+//@     requires false [C07.poll.request.has.no.cancellation.of.its.own]
+//@   callsite compressedReader skip
+//@   callsite DecodePayloads skip
+//@   callsite Close skip
